@@ -504,34 +504,46 @@ def fuzz_stage(prop, secs, jobs=16, sanitizer="none"):
         cov.update({"fuzzer_executions": int(last[0]), "coverage_edges": int(last[1]), "coverage_features": int(last[2]), "corpus_size": int(last[3]),
                     "fuzzer_ooms": int(last[5]), "fuzzer_timeouts": int(last[6]), "fuzzer_crashes": int(last[7])})
     if sanitizer != "none":
-        # the sanitizer is the monitor here: a report is a violation whether or not a result changed
-        found = [(m.group(0), m.end()) for m in re.finditer(r"ERROR: AddressSanitizer: [^\n]*(?:\n(?!==\d+==ERROR)[^\n]*){0,60}", out)]
-        cov["sanitizer_reports"] = len(found)
+        # the sanitizer is the monitor here: a report is a violation whether or not a result changed. In
+        # fork mode the parent only relays the first line of a report, so every input that ended a job is
+        # run once more on its own under the same instrumented binary to obtain the whole report.
+        cov["sanitizer_report_lines_in_fuzzer_output"] = len(re.findall(r"ERROR: AddressSanitizer", out))
         seen_sites = set()
-        for r, pos in found:
-            kind = re.search(r"AddressSanitizer: ([\w-]+)", r).group(1)
+        reruns = 0
+        for art in sorted(glob.glob(f"{wd}/out/crash-*"))[:16]:
+            try:
+                pr = subprocess.run([binp, art], cwd=wd, env=env, stdout=subprocess.PIPE, stderr=subprocess.STDOUT, timeout=120, text=True, errors="replace", preexec_fn=big_stack)
+                r = pr.stdout
+            except subprocess.TimeoutExpired:
+                continue
+            reruns += 1
+            m = re.search(r"ERROR: AddressSanitizer: ([\w-]+)", r)
+            if not m:
+                continue
+            kind = m.group(1)
             if kind in ("stack-overflow", "out-of-memory", "allocation-size-too-big"):
                 continue  # resource exhaustion of the instrumented build, judged natively by the regular binaries
-            site = re.sub(r":\d+$", "", in_repo_frame(r))
-            if site in seen_sites:
+            r = r[m.start():]
+            first_stack = re.search(r"((?:^\s*#\d+ [^\n]*\n)+)", r, re.M)
+            stack_text = first_stack.group(1) if first_stack else r
+            frame = in_repo_frame(stack_text)
+            site = re.sub(r":\d+$", "", frame)
+            if (kind, site) in seen_sites:
                 continue
-            seen_sites.add(site)
-            m = re.search(r"Test unit written to (\S+)", out[pos - len(r):pos + 6000])
-            arts0 = [m.group(1)] if m and os.path.exists(m.group(1)) else sorted(glob.glob(f"{wd}/out/crash-*"))
+            seen_sites.add((kind, site))
             case = None
-            if arts0:
-                rcx, ox = run([SCV, "fuzz-decode", prop, arts0[0]])
-                try:
-                    case = json.loads(ox.splitlines()[0])["case"]
-                except Exception:
-                    pass
-            kept = None
-            if arts0:
-                os.makedirs(f"{ROOT}/replays", exist_ok=True)
-                kept = f"{ROOT}/replays/{prop}-asan-fuzz-input-{hashlib.sha1(open(arts0[0],'rb').read()).hexdigest()[:12]}"
-                shutil.copy(arts0[0], kept)
+            rcx, ox = run([SCV, "fuzz-decode", prop, art])
+            try:
+                case = json.loads(ox.splitlines()[0])["case"]
+            except Exception:
+                pass
+            os.makedirs(f"{ROOT}/replays", exist_ok=True)
+            kept = f"{ROOT}/replays/{prop}-asan-fuzz-input-{hashlib.sha1(open(art,'rb').read()).hexdigest()[:12]}"
+            shutil.copy(art, kept)
             viol.append({"property": prop, "config": "fuzz-asan", "class": "asan-report", "sig": f"{prop}|asan|{kind}|{site}", "seed": SEED, "case": case or {},
-                         "detail": f"AddressSanitizer reported {kind} at {in_repo_frame(r)} while the coverage-guided stage ran; fuzzer input kept at {kept}; report: " + r[:2000]})
+                         "detail": f"AddressSanitizer reported {kind} at {frame} for an input found by the coverage-guided stage (kept at {kept}); report: " + r[:2500]})
+        cov["sanitizer_inputs_rerun"] = reruns
+        cov["sanitizer_reports"] = len(seen_sites)
     tot = collections.Counter()
     for f in glob.glob(f"{wd}/out/stats-*.json"):
         try:
